@@ -193,6 +193,22 @@ func c17Play(ctx *rt.Ctx, c c17Case, all bool) (viol string, sigOverride string,
 			if err := h.db.Close(); err != nil {
 				return fmt.Sprintf("step %d %s failed: %v", n+1, o, err), ""
 			}
+		case "badquery":
+			// fails at execution (unknown column), directly and through a prepared statement: must be an error, and
+			// must not leave anything behind (checked by the later steps: rows, release after the last Close)
+			h := handles[o.H]
+			if rows, err := h.db.Query(`nosuchcolumn = "1" ; c`); err == nil {
+				rows.Close()
+				if lo := liveOpts(h.dsn/2, o.H); !(lo[1-h.dsn%2] && !lo[h.dsn%2]) {
+					return fmt.Sprintf("step %d %s: a query on an unknown column succeeded", n+1, o), ""
+				}
+			}
+			if st, err := h.db.Prepare(`a = $1 & nosuchcolumn = $2`); err == nil {
+				if rows, err := st.Query("1", "2"); err == nil {
+					rows.Close()
+				}
+				st.Close()
+			}
 		case "query", "prep", "query2":
 			h := handles[o.H]
 			conflict := func() bool { lo := liveOpts(h.dsn/2, o.H); return lo[1-h.dsn%2] && !lo[h.dsn%2] }()
@@ -327,6 +343,14 @@ func c17Enabled(c c17Case, o c17Op) bool {
 		return !live[o.H] && len(live) < 3 && (o.H == 0 || live[o.H-1] || liveCountBelow(live, o.H))
 	case "query2":
 		return live[o.H] && c.Pool == 0
+	case "badquery":
+		// at most one failing query per history (keeps the alphabet small)
+		for _, p := range c.Ops {
+			if p.Op == "badquery" {
+				return false
+			}
+		}
+		return live[o.H]
 	default:
 		return live[o.H]
 	}
@@ -350,7 +374,7 @@ func c17Alphabet() []c17Op {
 		}
 	}
 	for h := 0; h < 3; h++ {
-		for _, k := range []string{"query", "prep", "query2", "close"} {
+		for _, k := range []string{"query", "prep", "query2", "badquery", "close"} {
 			ops = append(ops, c17Op{Op: k, H: h})
 		}
 	}
